@@ -31,6 +31,7 @@ class TCPServer:
         self.protocol: ProtocolWrapper
         self.send_lock = trio.Lock()
         self.idle_task = TrioSingleTask()
+        self.reading = True
         self.stream = stream
         self.state = state
 
@@ -74,6 +75,7 @@ class TCPServer:
                 await self.idle_task.restart(self._task_group, self._idle_timeout)
                 await self._read_data()
                 # The client has gone, so there is nothing left to time out
+                self.reading = False
                 await self.idle_task.stop()
         except OSError:
             pass
@@ -101,9 +103,11 @@ class TCPServer:
             await self._close()
             await self.protocol.handle(Closed())
         elif isinstance(event, Updated):
-            if event.idle:
+            if event.idle and self.reading:
                 await self.idle_task.restart(self._task_group, self._idle_timeout)
             else:
+                # Also if nothing more is read, a stream reporting
+                # idle as it ends must not re-arm the timer then.
                 await self.idle_task.stop()
 
     async def _read_data(self) -> None:
